@@ -113,6 +113,14 @@ class Ctx:
         self.state_keys.add(hashlib.sha1(repr(key).encode()).hexdigest()[:12])
 
     def result(self) -> Dict[str, Any]:
+        import os
+
+        if os.environ.get("VERIF_DUMP_EVENTS"):
+            import json as _json
+
+            idx = self.case.get("_run", {}).get("index", "x")
+            with open(os.path.join(os.environ["VERIF_DUMP_EVENTS"], f"{self.prop}_{idx}_{os.getpid()}.json"), "w") as f:
+                _json.dump(self.events_tail, f)
         return {
             "digest": self.digest,
             "violations": self.violations,
